@@ -432,7 +432,11 @@ type brokerEnv struct {
 func startBroker(bufsize int) *brokerEnv {
 	for try := 0; try < 20; try++ {
 		e := &brokerEnv{bufsize: bufsize, hook: &recHook{seen: map[string][]string{}}}
-		e.srv = mqtt.New(&mqtt.Options{ClientNetReadBufferSize: bufsize, Logger: quietLog()})
+		// no server-side message expiry: a forwarded PUBLISH would carry the seconds remaining, which differ between the two
+		// runs of a case when a second boundary falls between them (1 of 100 363 cases of the thorough tier: reply-differs)
+		caps := mqtt.NewDefaultServerCapabilities()
+		caps.MaximumMessageExpiryInterval = 0
+		e.srv = mqtt.New(&mqtt.Options{ClientNetReadBufferSize: bufsize, Capabilities: caps, Logger: quietLog()})
 		_ = e.srv.AddHook(new(auth.AllowHook), nil)
 		_ = e.srv.AddHook(e.hook, nil)
 		e.wsAddr = freeAddr()
